@@ -6,16 +6,23 @@ static void make_wf(ARRAY_OWN_T *d)
   __CPROVER_assume(d->m_size <= ARRAY_OWN_MAX);
   _Bool null_ok = nondet_bool();
   if (d->m_size == 0 && null_ok)
-    d->m_ptr = 0;                        /* default-constructed / moved-from */
+    d->m_ptr = 0;                        /* default-constructed */
   else
     d->m_ptr = (OUT_VEC_T *)malloc(d->m_size * sizeof(OUT_VEC_T));   /* arbitrary contents */
+}
+/* a possible assignment TARGET: well-formed, or moved-from (the defaulted move leaves m_size as it was and
+ * m_ptr null -- a state the real class reaches and copy assignment must cope with) */
+static void make_target(ARRAY_OWN_T *d)
+{
+  make_wf(d);
+  if (nondet_bool() && d->m_ptr) { free(d->m_ptr); d->m_ptr = 0; }
 }
 
 /* a = b with a and b distinct objects */
 void h_array_copy_assign_distinct(void)
 {
   ARRAY_OWN_T in_a, in_b;
-  make_wf(&in_a);
+  make_target(&in_a);
   make_wf(&in_b);
   verif_ghost_K = nondet_size_t();
   verif_ghost_J = nondet_unsigned();
